@@ -903,6 +903,9 @@ int EGLPNUM_TYPENAME_ILLsimplex (
 		}
 		else if (it.algorithm == PRIMAL_SIMPLEX)
 		{
+			/* dual steepest-edge norms left by an earlier dual run describe
+			 * another basis (and possibly another number of rows) */
+			EGLPNUM_TYPENAME_EGlpNumFreeArray (pinf->dsinfo.norms);
 			if (B->colnorms)
 			{
 				rval = EGLPNUM_TYPENAME_ILLprice_load_colnorms (lp, B->colnorms, pinf);
